@@ -32,3 +32,5 @@ def run(prog, rep):
     _rio2.run_swapped(prog, rep)
     from ..rules import r_io as _rio3
     _rio3.run_memtype(prog, rep)
+    from ..rules import r_io as _rio4
+    _rio4.run_reclaim(prog, rep)
